@@ -185,6 +185,16 @@ def build_graph(case):
     return graph, ids
 
 
+def graph_snapshot(graph):
+    def seq(x):
+        return list(x() if callable(x) else x)
+    return (seq(graph.inputs), seq(graph.outputs),
+            sorted((min(e), max(e), str(graph.edge_type(e)))
+                   for e in graph.edges()),
+            sorted((v, str(graph.type(v)), str(graph.phase(v)))
+                   for v in graph.vertices()))
+
+
 def check_import(case):
     from discopy.quantum.zx import Diagram
     graph, ids = build_graph(case)
@@ -204,8 +214,16 @@ def check_import(case):
     if not case["spiders"]:
         return dict(nt=False, labels=["empty"])
     ref = pyzx_matrix(graph, preserve_scalar=False)
+    before = graph_snapshot(graph)
     d = Diagram.from_pyzx(graph)
     specs.well_typed(d, "from_pyzx")
+    # importing reads the graph: it is the same graph afterwards and a second
+    # import gives the same diagram
+    require(graph_snapshot(graph) == before, "C17:import-changes-the-graph",
+            lambda: "{} -> {}".format(before, graph_snapshot(graph)))
+    again = Diagram.from_pyzx(graph)
+    require(again == d and specs.dkey(again) == specs.dkey(d),
+            "C17:second-import-differs", lambda: "{} then {}".format(d, again))
     require(len(d.dom) == case["n_in"] and len(d.cod) == case["n_out"],
             "C17:import-arity", lambda: "{} : {} -> {}".format(
                 d, d.dom, d.cod))
